@@ -229,14 +229,60 @@ def run_case(c):
         sc_ = max(abs(sums[False][k]), 1e-9)
         if abs(sums[True][k] - sums[False][k]) > 1e-8 * sc_:
             bad("gruneisen_mesh_symmetry", "weighted sum #%d of Grueneisen parameters differs between reduced (%.12g) and full (%.12g) mesh" % (k, sums[True][k], sums[False][k]), mesh=c["mesh"])
+    # strained cells of lower symmetry than the reference (uniaxial / shear strain, the delta-strain use case): the Grueneisen mesh may only use
+    # the symmetry common to the three cells; reduced vs full mesh again
+    srng = np.random.default_rng(c["seed"] + 1)
+    # (every mode changes the volume to first order: the parameter is a derivative with respect to V, a pure shear would divide by ~0)
+    mode = ["uniaxial_c", "uniaxial_a", "uniaxial_c+shear_xy", "uniaxial_a+shear_yz"][srng.integers(4)]
+    E = np.zeros((3, 3))
+    if mode.startswith("uniaxial_c"):
+        E[2, 2] = 1.0
+    else:
+        E[0, 0] = 1.0
+    if mode.endswith("shear_xy"):
+        E[0, 1] = E[1, 0] = 0.35
+    elif mode.endswith("shear_yz"):
+        E[1, 2] = E[2, 1] = 0.35
+    phs3 = []
+    for sgn in (0.0, 1.0, -1.0):
+        d = dict(cd)
+        d["cell"] = (np.array(cd["cell"]) @ (np.eye(3) + sgn * eps * E)).tolist()
+        ph = Phonopy(crystals.to_atoms(d), supercell_matrix=np.diag([2, 2, 2]), primitive_matrix=cd["pmat"] if cd["pmat"] != "P" else None)
+        sc = ph.supercell
+        ph.force_constants = models.pair_fc(sc.cell, sc.scaled_positions, sc.symbols, cutoff=4.8)
+        phs3.append(ph)
+    try:
+        gr3 = PhonopyGruneisen(*phs3)
+        sums3 = {}
+        for sym in (True, False):
+            gr3.set_mesh(c["mesh"], is_mesh_symmetry=sym)
+            qpts, w, freqs, _, gam = gr3.get_mesh()
+            gam, freqs, w = np.array(gam), np.array(freqs), np.array(w, float)
+            fmax = np.abs(freqs).max()
+            gm = np.where(freqs > 1e-2 * fmax, gam, 0.0)
+            sums3[sym] = (len(w), float((w * gm.sum(axis=1)).sum() / w.sum()), float((w * (gm ** 2).sum(axis=1)).sum() / w.sum()), float((w * (gm * freqs ** 2).sum(axis=1)).sum() / w.sum()),
+                          int(w.sum()))
+    except Exception as e_:
+        sums3 = None
+        bad("gruneisen_exception", "PhonopyGruneisen on a %s-strained triple raised %r" % (mode, e_), strain_mode=mode)
+    if sums3 is not None:
+        obs["n_grun_anisotropic_pairs"] = 1
+        obs["grun_anisotropic_reduced"] = int(sums3[True][0] < sums3[False][0])
+        if sums3[True][4] != sums3[False][4]:
+            bad("gruneisen_mesh_symmetry", "%s strain: weights of the reduced mesh sum to %d, full mesh has %d points" % (mode, sums3[True][4], sums3[False][4]), mesh=c["mesh"], strain_mode=mode)
+        for k in (1, 2, 3):
+            sc_ = max(abs(sums3[False][k]), abs(sums3[False][2]) ** 0.5 if k == 1 else 0.0, 1e-9)
+            if abs(sums3[True][k] - sums3[False][k]) > 1e-8 * sc_:
+                bad("gruneisen_mesh_symmetry", "%s strain: weighted sum #%d of Grueneisen parameters differs between reduced (%.12g, %d points) and full (%.12g, %d points) mesh" % (
+                    mode, k, sums3[True][k], sums3[True][0], sums3[False][k], sums3[False][0]), mesh=c["mesh"], strain_mode=mode)
     key = "g|%s|%s|%.4f|%.4f" % (c["crystal"]["name"], c["mesh"], g, eps)
-    return {"viol": viol, "nontrivial": bool(out[False] >= 3), "key": key, "obs": obs, "evals": 4,
+    return {"viol": viol, "nontrivial": bool(out[False] >= 3), "key": key, "obs": obs, "evals": 6,
             "sample": {"kind": "grun", "crystal": c["crystal"], "g": g, "strain": eps, "mesh": c["mesh"], "closed_form": want, "n_ir": sums[True][0], "n_full": sums[False][0]}}
 
 
 def summarize(results, obs, tier):
     inc = []
-    for k in ("n_dD", "n_gv_analytic", "n_gv_fd", "class_sym", "class_arbitrary", "nac_wang", "lang_C", "lang_Py", "n_grun_modes", "grun_reduced"):
+    for k in ("n_dD", "n_gv_analytic", "n_gv_fd", "class_sym", "class_arbitrary", "nac_wang", "lang_C", "lang_Py", "n_grun_modes", "grun_reduced", "n_grun_anisotropic_pairs", "grun_anisotropic_reduced"):
         if obs.get(k, 0) == 0:
             inc.append("%s never exercised" % k)
     return {}, inc
